@@ -222,6 +222,20 @@ func TestVerifC02_Long(t *testing.T) {
 			if plen > 1 && (tlen-at)/plen > 1 {
 				step = rapid.IntRange(1, imin((tlen-at)/plen, 50)).Draw(t, "step")
 			}
+			// anchored terms look at the two ends of the line: plant contiguous copies there too
+			switch rapid.IntRange(0, 5).Draw(t, "anchor") {
+			case 0:
+				at, step = tlen-plen, 1
+			case 1:
+				at, step = 0, 1
+			case 2:
+				if k := rapid.IntRange(1, 3).Draw(t, "blanks"); tlen-plen-k >= 0 {
+					at, step = tlen-plen-k, 1
+					for i := tlen - k; i < tlen; i++ {
+						c.Text[i] = ' '
+					}
+				}
+			}
 			for i, r := range c.Pattern {
 				c.Text[at+i*step] = variant(t, r, "v")
 			}
@@ -231,6 +245,7 @@ func TestVerifC02_Long(t *testing.T) {
 		} else {
 			c.AsBytes = rapid.Bool().Draw(t, "asBytes")
 		}
+		c.Used = rapid.Bool().Draw(t, "used")
 		c.Forward = rapid.Bool().Draw(t, "fwd")
 		c.WithPos = rapid.Bool().Draw(t, "withPos")
 		// patterns longer than ~1000 only with the production slab (real
